@@ -96,6 +96,22 @@ def r1(ctx):
         ss = [c for c in sbp.calls() if re.search(r'sort', c.path.rsplit('::', 1)[-1])]
         uns = [c for c in ss if 'unstable' in c.path]
         ctx.check(bool(ss) and not uns, rule, sbp.path + '|stable', sbp.where(), 'sort_by_path uses %s' % ','.join(c.path.rsplit('::', 1)[-1] for c in ss), 'sort_by_path uses an unstable sort or none')
+        # the ordering must be total and injective on paths: a comparator on the Paths themselves or a key that *is* the
+        # path; lossy keys (to_string_lossy, display, lower-casing, file name only) make distinct paths tie, and ties are
+        # emitted in arrival (= schedule dependent) order
+        lossy = []
+        total = False
+        for cp in lib.closures_of(sbp.path, recursive=False):
+            cb = lib.body(cp)
+            lossy += [c for c in cb.calls(r'to_string_lossy$|::display$|to_lowercase$|to_uppercase$|file_name(_cstr)?$|::len$|hash128$|to_escaped_string$')]
+            if cb.calls(r'Ord>::cmp$|Ord::cmp$'):
+                tys = (cb.calls(r'Ord>::cmp$|Ord::cmp$')[0].t.get('argtys') or [])
+                total = total or all('path::Path' in t for t in tys)
+            rs = backslice(cb, [0])
+            if cb.local_ty(0).replace('&', '').strip() in ('path::Path', 'std::path::PathBuf', 'std::ffi::OsString') and not lossy:
+                total = True
+        ctx.check(total and not lossy, rule, sbp.path + '|total-order', sbp.where(), 'paths are ordered by a total order on the paths themselves',
+                  'the path order is decided by %s: distinct paths can compare equal (e.g. names differing only in invalid-UTF-8 bytes) and then keep their schedule-dependent arrival order' % (sorted({c.path.rsplit("::", 1)[-1] for c in lossy}) or 'a key that is not the path'))
         for cp in lib.closures_of(sbp.path, recursive=False):
             cb = lib.body(cp)
             cm = cb.calls(r'Ord>::cmp$|Ord::cmp$|PartialOrd.*::partial_cmp$')
